@@ -360,9 +360,15 @@ def _exec_bason(plan, out, tr):
             new.append(v)
         vo = _mk(rep, new)
         vals = _vals(vo)
+        # what the controller compares: a Python float is turned into a tensor of the default dtype (float32) by
+        # torch.tensor(loss), and the thresholds are compared in that tensor's dtype
+        seen_dtype = vo.dtype if torch.is_tensor(vo) else (torch.float32 if rep == "float" else torch.float64)
+        if rep == "float":
+            vals = [float(torch.tensor(v, dtype=torch.float32)) for v in vals]
         eo = [_exact(v) for v in vals]
-        dd = _exact(float(torch.tensor(d, dtype=vo.dtype)) if torch.is_tensor(vo) else d)
-        tt = _exact(float(torch.tensor(tol, dtype=vo.dtype)) if torch.is_tensor(vo) else tol)
+        dd = _exact(float(torch.tensor(d, dtype=seen_dtype)))
+        tt = _exact(float(torch.tensor(tol, dtype=seen_dtype)))
+        eps_seen = 1.2e-7 if seen_dtype == torch.float32 else 2.3e-16
         fails, near = [], False
         if all(e < 0 for e in eo) and all(e < tt for e in eo):
             # every loss negative, hence below tol: the tol clause stops the loop at this step whatever the (ill-defined)
@@ -385,11 +391,11 @@ def _exec_bason(plan, out, tr):
             if not math.isfinite(last[k]):
                 fails.append(False); out.probe("first-step-inf"); continue
             rel = (_exact(last[k]) - eo[k]) / eo[k]
-            if rel != dd and abs(rel - dd) < Fraction(_eps(rep)) * 2000 * max(abs(rel), abs(dd), 1):
+            if rel != dd and abs(rel - dd) < Fraction(eps_seen) * 2000 * max(abs(rel), abs(dd), 1):
                 near = True
             fails.append(rel < dd)
         below = [e < tt for e in eo]
-        if any(e != tt and abs(e - tt) < Fraction(_eps(rep)) * 1000 * tt for e in eo):
+        if any(e != tt and abs(e - tt) < Fraction(eps_seen) * 1000 * tt for e in eo):
             near = True
         if near:
             out.declined("C20.near-threshold"); continue
